@@ -408,7 +408,7 @@ func c09Program(c *checker, p *Prog, how, probe string) {
 }
 
 // plantNumeric rewrites parts of a generated program around numeric boundaries.
-// It returns a label for the histogram. 
+// It returns a label for the histogram.
 func plantNumeric(r *rng.R, p *Prog, g *gen) string {
 	var structs, enums, svcs []*Def
 	for _, f := range p.Files {
@@ -459,6 +459,8 @@ func plantNumeric(r *rng.R, p *Prog, g *gen) string {
 					f.ID = i64p(v)
 					if v >= 0 && r.Chance(1, 4) {
 						f.IDLit = fmt.Sprintf("0x%x", v)
+					} else if r.Chance(1, 8) {
+						f.IDLit = zeroPadded(v, 1+r.Intn(3))
 					}
 					break
 				}
@@ -658,5 +660,5 @@ func runC09(c *checker, r *rng.R) {
 		c09Program(c, p, "generated", "")
 	}
 	c.flush()
-	c.rep.Rule = "programs whose numeric literals sit around every type boundary (0, ±1, ±2^7, ±2^15, ±2^31, ±2^63 and neighbours; decimal, +signed and hex spellings): field identifiers explicit / unset (auto-negative in non-strict mode), enum values explicit / implicit, integer constants and defaults of i8/i16/i32/i64/double/bool/enum types (also inside lists, maps, struct literals, through typedefs), strict and non-strict mode; 40% carry one planted defect the compiler must reject (identifier above 32767 / below 1 / below -32768 / unset / duplicate, duplicate names, literal beyond int64, enum value outside int32, integer constant or default outside its i8/i16/i32 type, bool other than 0/1, enum value that is no item or equals one only modulo 2^32, constant or service defined in terms of itself); oracle: compiled numbers equal the source and lie in range, else rejected; compared with the Lean model; every case non-trivial; distinct by program. The shapes of the repaired findings D5 D6 D7 D8 D9 are ordinary planted defects and corpus entries."
+	c.rep.Rule = "programs whose numeric literals sit around every type boundary (0, ±1, ±2^7, ±2^15, ±2^31, ±2^63 and neighbours; decimal, +signed, zero-padded decimal and hex spellings): field identifiers explicit / unset (auto-negative in non-strict mode), enum values explicit / implicit, integer constants and defaults of i8/i16/i32/i64/double/bool/enum types (also inside lists, maps, struct literals, through typedefs), strict and non-strict mode; 40% carry one planted defect the compiler must reject (identifier above 32767 / below 1 / below -32768 / unset / duplicate, duplicate names, literal beyond int64, enum value outside int32, integer constant or default outside its i8/i16/i32 type, bool other than 0/1, enum value that is no item or equals one only modulo 2^32, constant or service defined in terms of itself); oracle: compiled numbers equal the source and lie in range, else rejected; compared with the Lean model; every case non-trivial; distinct by program. The shapes of the repaired findings D5 D6 D7 D8 D9 are ordinary planted defects and corpus entries."
 }
